@@ -37,6 +37,8 @@ CONSTANTS Jobs,          \* e.g. 1..3
           CancelVals,    \* subset of BOOLEAN: may the delegate future be cancelled
           SubmitDelays,  \* candidate durations of the delegate's own submit() (virtual time spent inside
                          \* submit_timeout before the returned future exists; 0 = none)
+          CancelDurs,    \* candidate durations of the delegate future's cancel() (0 = instant; > 0: it takes that
+                         \* long and refuses in the end - a remote cancel that is turned down)
           Horizon,       \* the observer ends the run here
           KeepHist,      \* keep the event history (simulation / replay only)
           Bug            \* "none" or the name of a seeded model bug (negative controls)
@@ -48,13 +50,16 @@ Sub(j) == <<"sub", j>>
 Env(j) == <<"env", j>>
 Threads == {LOOP, OBS} \cup {Sub(j) : j \in Jobs} \cup {Env(j) : j \in Jobs}
 
-VARIABLES cfgT, cfgS, cfgD, cfgC, cfgSD, sdl,
+VARIABLES cfgT, cfgS, cfgD, cfgC, cfgSD, cfgCD, sdl,
           pc, jobs, dl, lock, gate, evt, woken, jst, overdue, lpend, wt, wdl, edl, now,
+          cur, cdl,      \* the job whose slow cancel() the loop thread is inside, and when that call returns
+          pnow,          \* the clock reading of the latest partition (Bug = "stale_now" computes the sleep from it)
           obs, viol, hist, actor
 
-cfg  == <<cfgT, cfgS, cfgD, cfgC, cfgSD>>
-vars == <<cfgT, cfgS, cfgD, cfgC, cfgSD, sdl, pc, jobs, dl, lock, gate, evt, woken, jst, overdue, lpend, wt, wdl, edl, now,
-          obs, viol, hist, actor>>
+cfg  == <<cfgT, cfgS, cfgD, cfgC, cfgSD, cfgCD>>
+slow == <<cur, cdl, pnow>>
+vars == <<cfgT, cfgS, cfgD, cfgC, cfgSD, cfgCD, sdl, pc, jobs, dl, lock, gate, evt, woken, jst, overdue, lpend, wt, wdl, edl, now,
+          cur, cdl, pnow, obs, viol, hist, actor>>
 
 RECURSIVE Feed(_, _, _)
 Feed(o, v, evs) ==
@@ -71,6 +76,7 @@ Init ==
   /\ cfgT \in [Jobs -> TimeoutVals] /\ cfgS \in [Jobs -> SubmitTimes]
   /\ cfgD \in [Jobs -> Durs] /\ cfgC \in [Jobs -> CancelVals]
   /\ cfgSD \in [Jobs -> SubmitDelays] /\ sdl = [j \in Jobs |-> -1]
+  /\ cfgCD \in [Jobs -> CancelDurs] /\ cur = 0 /\ cdl = -1 /\ pnow = 0
   /\ pc = [t \in Threads |-> IF t = LOOP THEN "l_top" ELSE IF t = OBS THEN "o_sleep"
                               ELSE IF t[1] = "sub" THEN "s_sleep" ELSE "e_idle"]
   /\ jobs = <<>> /\ dl = [j \in Jobs |-> 0] /\ lock = "none" /\ gate = NoOne /\ evt = FALSE /\ woken = FALSE
@@ -88,7 +94,7 @@ SSleep(j) ==   \* the client wakes up and calls submit_timeout(); next visible o
   /\ pc' = [pc EXCEPT ![Sub(j)] = "s_gate"]
   /\ Emit(<<E2("SubmitCall", "client", now, j, cfgT[j])>>)
   /\ actor' = Sub(j)
-  /\ UNCHANGED <<cfg, sdl, jobs, dl, lock, gate, evt, woken, jst, overdue, lpend, wt, wdl, edl, now>>
+  /\ UNCHANGED <<slow, cfg, sdl, jobs, dl, lock, gate, evt, woken, jst, overdue, lpend, wt, wdl, edl, now>>
 
 G_SGate(j) == pc[Sub(j)] = "s_gate" /\ gate = NoOne
 \* the rest of the gate step: the delegate's submit has returned; MapFuture is created, add_done_callback,
@@ -110,65 +116,79 @@ SGate(j) ==    \* with ensure_alive(): delegate.submit ... (which may itself tak
             /\ dl' = [dl EXCEPT ![j] = IF Bug = "deadline_first" THEN now + cfgT[j] ELSE @]
             /\ UNCHANGED <<jst, edl, obs, viol, hist>>
   /\ actor' = Sub(j)
-  /\ UNCHANGED <<cfg, jobs, lock, evt, woken, overdue, lpend, wt, wdl, now>>
+  /\ UNCHANGED <<slow, cfg, jobs, lock, evt, woken, overdue, lpend, wt, wdl, now>>
 
 G_SDSub(j) == pc[Sub(j)] = "s_dsub" /\ now >= sdl[j]
 SDSub(j) ==    \* the delegate's submit returns
   /\ G_SDSub(j)
   /\ Created(j)
   /\ actor' = Sub(j)
-  /\ UNCHANGED <<cfg, sdl, jobs, lock, gate, evt, woken, overdue, lpend, wt, wdl, now>>
+  /\ UNCHANGED <<slow, cfg, sdl, jobs, lock, gate, evt, woken, overdue, lpend, wt, wdl, now>>
 
 G_SLock(j) == pc[Sub(j)] = "s_lock" /\ lock = "none"
 SLock(j) ==    \* with self._jobs_lock: self._jobs.append(job)
   /\ G_SLock(j)
   /\ jobs' = Append(jobs, j)
-  /\ pc' = [pc EXCEPT ![Sub(j)] = "s_set"]
+  \* seeded model bug (change C03-r3m2): "the thread is already waiting for an earlier deadline" - wake it only if
+  \* the list was empty
+  /\ pc' = [pc EXCEPT ![Sub(j)] = IF Bug = "wake_only_if_empty" /\ jobs # <<>> THEN "s_noset" ELSE "s_set"]
   /\ actor' = Sub(j)
-  /\ UNCHANGED <<cfg, sdl, dl, lock, gate, evt, woken, jst, overdue, lpend, wt, wdl, edl, now, obs, viol, hist>>
+  /\ UNCHANGED <<slow, cfg, sdl, dl, lock, gate, evt, woken, jst, overdue, lpend, wt, wdl, edl, now, obs, viol, hist>>
 
-G_SSet(j) == pc[Sub(j)] = "s_set"
+G_SSet(j) == pc[Sub(j)] \in {"s_set", "s_noset"}
 SSet(j) ==     \* self._jobs_write.set(); return future
   /\ G_SSet(j)
-  /\ IF Bug = "no_set_on_submit" THEN UNCHANGED <<evt, woken>> ELSE SetEvent
+  /\ IF Bug = "no_set_on_submit" \/ pc[Sub(j)] = "s_noset" THEN UNCHANGED <<evt, woken>> ELSE SetEvent
   /\ pc' = [pc EXCEPT ![Sub(j)] = "done"]
   /\ gate' = NoOne
   /\ Emit(<<E1("SubmitRet", "client", now, j)>>)
   /\ actor' = Sub(j)
-  /\ UNCHANGED <<cfg, sdl, jobs, dl, lock, jst, overdue, lpend, wt, wdl, edl, now>>
+  /\ UNCHANGED <<slow, cfg, sdl, jobs, dl, lock, jst, overdue, lpend, wt, wdl, edl, now>>
 
 \* ------------------------------------------------------------------ the job loop
 IsOverdue(j) == IF Bug = "early" THEN dl[j] <= now + 1 ELSE dl[j] < now
 
-\* index of the first overdue job whose cancel() succeeds (0 if none)
-RECURSIVE FirstCancellable(_, _)
-FirstCancellable(ov, i) ==
+\* cancel() of an overdue job either succeeds at once, or takes cfgCD ticks and is refused, or is refused at once
+Stops(j) == jst[j] = "pending" /\ (cfgCD[j] > 0 \/ cfgC[j])
+\* index of the first overdue job whose cancel() succeeds or takes time (0 if none)
+RECURSIVE FirstStop(_, _)
+FirstStop(ov, i) ==
   IF i > Len(ov) THEN 0
-  ELSE IF jst[ov[i]] = "pending" /\ cfgC[ov[i]] THEN i ELSE FirstCancellable(ov, i + 1)
+  ELSE IF Stops(ov[i]) THEN i ELSE FirstStop(ov, i + 1)
 
-WaitTime(pend) ==      \* wait_time = max(earliest - monotonic(), 0), or None (-1)
+WaitTime(pend, clock) ==      \* wait_time = max(earliest - monotonic(), 0), or None (-1)
   IF pend = <<>> THEN -1
   ELSE LET earliest == CHOOSE d \in {dl[pend[i]] : i \in DOMAIN pend} :
                           \A x \in {dl[pend[i]] : i \in DOMAIN pend} : d <= x
-       IN Max(earliest - now, 0)
+       IN Max(earliest - clock, 0)
+\* seeded model bug (change C09-r3m1): the clock reading of the partition is re-used instead of reading the clock again
+\* after the overdue cancels
+ClockAfterCancels == IF Bug = "stale_now" THEN pnow ELSE now
 
-\* run _do_cancel over `ov` until one cancel succeeds (next visible op: the event.set() of its
-\* done-callback) or the list is exhausted (next visible op: event.wait)
-ProcessOverdue(ov, pend) ==
-  LET i == FirstCancellable(ov, 1)
+\* run _do_cancel over `ov` until one cancel succeeds (next visible op: the event.set() of its done-callback), one
+\* takes time (next visible op: the end of that sleep) or the list is exhausted (next visible op: event.wait);
+\* `pre` = events of the step that precede the attempts
+ProcessOverdue(ov, pend, pre, clock) ==
+  LET i == FirstStop(ov, 1)
       n == IF i = 0 THEN Len(ov) ELSE i
       attempts == [x \in 1..n |-> ES("CancelArrived", "timeout", now, ov[x], "outer")]
   IN IF i = 0
        THEN /\ overdue' = <<>> /\ lpend' = pend
-            /\ wt' = WaitTime(pend)
+            /\ wt' = WaitTime(pend, clock)
             /\ pc' = [pc EXCEPT ![LOOP] = "l_wait"]
-            /\ UNCHANGED jst
-            /\ Emit(attempts)
+            /\ UNCHANGED <<jst, cur, cdl>>
+            /\ Emit(pre \o attempts)
+       ELSE IF cfgCD[ov[i]] > 0
+       THEN /\ overdue' = SubSeq(ov, i + 1, Len(ov)) /\ lpend' = pend
+            /\ cur' = ov[i] /\ cdl' = now + cfgCD[ov[i]]
+            /\ pc' = [pc EXCEPT ![LOOP] = "l_cbusy"]
+            /\ UNCHANGED <<jst, wt>>
+            /\ Emit(pre \o attempts)
        ELSE /\ overdue' = SubSeq(ov, i + 1, Len(ov)) /\ lpend' = pend
             /\ jst' = [jst EXCEPT ![ov[i]] = "cancelled"]
             /\ pc' = [pc EXCEPT ![LOOP] = "l_cset"]
-            /\ UNCHANGED wt
-            /\ Emit(attempts \o <<ESA("Observed", "timeout", now, ov[i], "CANCELLED_AND_NOTIFIED", -1, -1)>>)
+            /\ UNCHANGED <<wt, cur, cdl>>
+            /\ Emit(pre \o attempts \o <<ESA("Observed", "timeout", now, ov[i], "CANCELLED_AND_NOTIFIED", -1, -1)>>)
 
 G_LTop == pc[LOOP] = "l_top" /\ lock = "none"
 LTop ==        \* with _jobs_lock: partition; then cancel overdue jobs
@@ -177,7 +197,8 @@ LTop ==        \* with _jobs_lock: partition; then cancel overdue jobs
          pend == SelectSeq(live, LAMBDA j : ~IsOverdue(j))
          ov   == SelectSeq(live, LAMBDA j : IsOverdue(j))
      IN /\ jobs' = (IF Bug = "drop_pending" /\ ov # <<>> THEN <<>> ELSE pend)
-        /\ ProcessOverdue(ov, IF Bug = "drop_pending" /\ ov # <<>> THEN <<>> ELSE pend)
+        /\ ProcessOverdue(ov, IF Bug = "drop_pending" /\ ov # <<>> THEN <<>> ELSE pend, <<>>, now)
+  /\ pnow' = now
   /\ actor' = LOOP
   /\ UNCHANGED <<cfg, sdl, dl, lock, gate, evt, woken, wdl, edl, now>>
 
@@ -185,9 +206,16 @@ G_LCSet == pc[LOOP] = "l_cset"
 LCSet ==       \* the cancelled future's done-callback: self._jobs_write.set(); continue cancelling
   /\ G_LCSet
   /\ evt' = TRUE /\ UNCHANGED woken
-  /\ ProcessOverdue(overdue, lpend)
+  /\ ProcessOverdue(overdue, lpend, <<>>, ClockAfterCancels)
   /\ actor' = LOOP
-  /\ UNCHANGED <<cfg, sdl, jobs, dl, lock, gate, wdl, edl, now>>
+  /\ UNCHANGED <<pnow, cfg, sdl, jobs, dl, lock, gate, wdl, edl, now>>
+
+G_LCBusy == pc[LOOP] = "l_cbusy" /\ now >= cdl
+LCBusy ==      \* the slow cancel() returns False; continue cancelling
+  /\ G_LCBusy
+  /\ ProcessOverdue(overdue, lpend, <<ES("CancelArrivedRet", "timeout", now, cur, "outer")>>, ClockAfterCancels)
+  /\ actor' = LOOP
+  /\ UNCHANGED <<pnow, cfg, sdl, jobs, dl, lock, gate, evt, woken, wdl, edl, now>>
 
 G_LEnter == pc[LOOP] = "l_wait"
 LEnter ==      \* event.wait(wait_time): look at the flag; block only if it is clear
@@ -196,7 +224,7 @@ LEnter ==      \* event.wait(wait_time): look at the flag; block only if it is c
             ELSE /\ pc' = [pc EXCEPT ![LOOP] = "l_blocked"]
                  /\ wdl' = IF wt >= 0 THEN now + wt + 1 ELSE -1
   /\ actor' = LOOP
-  /\ UNCHANGED <<cfg, sdl, jobs, dl, lock, gate, evt, woken, jst, overdue, lpend, wt, edl, now, obs, viol, hist>>
+  /\ UNCHANGED <<slow, cfg, sdl, jobs, dl, lock, gate, evt, woken, jst, overdue, lpend, wt, edl, now, obs, viol, hist>>
 
 G_LWake == pc[LOOP] = "l_blocked" /\ (woken \/ (wdl >= 0 /\ now >= wdl))
 LWake ==       \* the blocked wait returns (notified by set(), or timed out)
@@ -204,7 +232,7 @@ LWake ==       \* the blocked wait returns (notified by set(), or timed out)
   /\ woken' = FALSE
   /\ pc' = [pc EXCEPT ![LOOP] = "l_clear"]
   /\ actor' = LOOP
-  /\ UNCHANGED <<cfg, sdl, jobs, dl, lock, gate, evt, jst, overdue, lpend, wt, wdl, edl, now, obs, viol, hist>>
+  /\ UNCHANGED <<slow, cfg, sdl, jobs, dl, lock, gate, evt, jst, overdue, lpend, wt, wdl, edl, now, obs, viol, hist>>
 
 G_LClear == pc[LOOP] = "l_clear"
 LClear ==      \* event.clear()
@@ -212,20 +240,36 @@ LClear ==      \* event.clear()
   /\ evt' = FALSE
   /\ pc' = [pc EXCEPT ![LOOP] = "l_top"]
   /\ actor' = LOOP
-  /\ UNCHANGED <<cfg, sdl, jobs, dl, lock, gate, woken, jst, overdue, lpend, wt, wdl, edl, now, obs, viol, hist>>
+  /\ UNCHANGED <<slow, cfg, sdl, jobs, dl, lock, gate, woken, jst, overdue, lpend, wt, wdl, edl, now, obs, viol, hist>>
 
 \* ------------------------------------------------------------------ the delegate's work
+\* cancel() holds the returned future's own lock for its whole duration: a completion of that future waits for it
+CancelInProgress(j) == pc[LOOP] = "l_cbusy" /\ cur = j
 G_EFinish(j) == pc[Env(j)] = "e_sleep" /\ now >= edl[j]
-EFinish(j) ==  \* work ends: delegate future resolved, outer future resolved by the callback chain
+Resolve(j, pre) ==   \* delegate future resolved, outer future resolved by the callback chain
+  IF jst[j] = "pending"
+    THEN /\ jst' = [jst EXCEPT ![j] = "done"]
+         /\ pc' = [pc EXCEPT ![Env(j)] = "e_set"]
+         /\ Emit(pre \o <<ESA("Observed", "env", now, j, "FINISHED", 0, j)>>)
+    ELSE /\ pc' = [pc EXCEPT ![Env(j)] = "done"]
+         /\ UNCHANGED jst
+         /\ IF pre = <<>> THEN UNCHANGED <<obs, viol, hist>> ELSE Emit(pre)
+EFinish(j) ==  \* work ends
   /\ G_EFinish(j)
-  /\ IF jst[j] = "pending"
-       THEN /\ jst' = [jst EXCEPT ![j] = "done"]
-            /\ pc' = [pc EXCEPT ![Env(j)] = "e_set"]
-            /\ Emit(<<E3("InvokeEnd", "env", now, j, 0, j), ESA("Observed", "env", now, j, "FINISHED", 0, j)>>)
-       ELSE /\ pc' = [pc EXCEPT ![Env(j)] = "done"]
-            /\ UNCHANGED <<jst, obs, viol, hist>>
+  /\ IF jst[j] = "pending" /\ CancelInProgress(j)
+       THEN /\ pc' = [pc EXCEPT ![Env(j)] = "e_blocked"] /\ UNCHANGED jst
+            /\ Emit(<<E3("InvokeEnd", "env", now, j, 0, j)>>)
+       ELSE Resolve(j, IF jst[j] = "pending" THEN <<E3("InvokeEnd", "env", now, j, 0, j)>> ELSE <<>>)
   /\ actor' = Env(j)
-  /\ UNCHANGED <<cfg, sdl, jobs, dl, lock, gate, evt, woken, overdue, lpend, wt, wdl, edl, now>>
+  /\ UNCHANGED <<slow, cfg, sdl, jobs, dl, lock, gate, evt, woken, overdue, lpend, wt, wdl, edl, now>>
+
+G_EResume(j) == pc[Env(j)] = "e_blocked" /\ ~CancelInProgress(j)
+EResume(j) ==  \* the slow cancel() has let go of the future's lock.  Urgent and silent: the future's own lock is not one
+               \* of the visible primitives, the engine resumes its waiter eagerly (as in Retry.tla)
+  /\ G_EResume(j)
+  /\ Resolve(j, <<>>)
+  /\ actor' = <<"-", 0>>
+  /\ UNCHANGED <<slow, cfg, sdl, jobs, dl, lock, gate, evt, woken, overdue, lpend, wt, wdl, edl, now>>
 
 G_ESet(j) == pc[Env(j)] = "e_set"
 ESet(j) ==     \* _on_future_done: self._jobs_write.set()
@@ -233,7 +277,7 @@ ESet(j) ==     \* _on_future_done: self._jobs_write.set()
   /\ SetEvent
   /\ pc' = [pc EXCEPT ![Env(j)] = "done"]
   /\ actor' = Env(j)
-  /\ UNCHANGED <<cfg, sdl, jobs, dl, lock, gate, jst, overdue, lpend, wt, wdl, edl, now, obs, viol, hist>>
+  /\ UNCHANGED <<slow, cfg, sdl, jobs, dl, lock, gate, jst, overdue, lpend, wt, wdl, edl, now, obs, viol, hist>>
 
 \* ------------------------------------------------------------------ observer
 G_OEnd == pc[OBS] = "o_sleep" /\ now >= Horizon
@@ -242,29 +286,35 @@ OEnd ==
   /\ pc' = [pc EXCEPT ![OBS] = "done"]
   /\ Emit(<<E0("End", "main", now)>>)
   /\ actor' = OBS
-  /\ UNCHANGED <<cfg, sdl, jobs, dl, lock, gate, evt, woken, jst, overdue, lpend, wt, wdl, edl, now>>
+  /\ UNCHANGED <<slow, cfg, sdl, jobs, dl, lock, gate, evt, woken, jst, overdue, lpend, wt, wdl, edl, now>>
 
 \* ------------------------------------------------------------------ time
 AnyEnabled ==
-  \/ \E j \in Jobs : G_SSleep(j) \/ G_SGate(j) \/ G_SDSub(j) \/ G_SLock(j) \/ G_SSet(j) \/ G_EFinish(j) \/ G_ESet(j)
-  \/ G_LTop \/ G_LCSet \/ G_LEnter \/ G_LWake \/ G_LClear \/ G_OEnd
+  \/ \E j \in Jobs : G_SSleep(j) \/ G_SGate(j) \/ G_SDSub(j) \/ G_SLock(j) \/ G_SSet(j) \/ G_EFinish(j) \/ G_EResume(j) \/ G_ESet(j)
+  \/ G_LTop \/ G_LCSet \/ G_LCBusy \/ G_LEnter \/ G_LWake \/ G_LClear \/ G_OEnd
 
-Deadlines ==
+AllDeadlines ==
   {cfgS[j] : j \in {x \in Jobs : pc[Sub(x)] = "s_sleep"}}
   \cup {sdl[j] : j \in {x \in Jobs : pc[Sub(x)] = "s_dsub"}}
   \cup {edl[j] : j \in {x \in Jobs : pc[Env(x)] = "e_sleep"}}
   \cup (IF pc[LOOP] = "l_blocked" /\ wdl >= 0 THEN {wdl} ELSE {})
+  \cup (IF pc[LOOP] = "l_cbusy" THEN {cdl} ELSE {})
   \cup (IF pc[OBS] = "o_sleep" THEN {Horizon} ELSE {})
+\* (a deadline that has passed while its thread waits for something else - a completion waiting for a slow cancel()
+\*  of the same future - is no longer something time has to advance to)
+Deadlines == {d \in AllDeadlines : d > now}
 
 Tick ==
   /\ ~AnyEnabled /\ Deadlines # {}
   /\ now' = CHOOSE d \in Deadlines : \A x \in Deadlines : d <= x
   /\ actor' = <<"tick", 0>>
-  /\ UNCHANGED <<cfg, sdl, pc, jobs, dl, lock, gate, evt, woken, jst, overdue, lpend, wt, wdl, edl, obs, viol, hist>>
+  /\ UNCHANGED <<slow, cfg, sdl, pc, jobs, dl, lock, gate, evt, woken, jst, overdue, lpend, wt, wdl, edl, obs, viol, hist>>
 
-Next ==
+UrgentEnabled == \E j \in Jobs : G_EResume(j)
+Normal ==
   \/ \E j \in Jobs : SSleep(j) \/ SGate(j) \/ SDSub(j) \/ SLock(j) \/ SSet(j) \/ EFinish(j) \/ ESet(j)
-  \/ LTop \/ LCSet \/ LEnter \/ LWake \/ LClear \/ OEnd \/ Tick
+  \/ LTop \/ LCSet \/ LCBusy \/ LEnter \/ LWake \/ LClear \/ OEnd \/ Tick
+Next == IF UrgentEnabled THEN \E j \in Jobs : EResume(j) ELSE Normal
 
 Spec == Init /\ [][Next]_vars
 
@@ -279,5 +329,8 @@ NoTimerlessSleepWithWork ==
 NoJobLost ==
   \A j \in Jobs : (jst[j] = "pending" /\ pc[Sub(j)] = "done" /\ Get(obs.att, j, 0) = 0) =>
       (\E i \in DOMAIN jobs : jobs[i] = j) \/ (\E i \in DOMAIN overdue : overdue[i] = j)
-View == <<cfg, sdl, pc, jobs, dl, lock, gate, evt, woken, jst, overdue, lpend, wt, wdl, edl, now, obs, viol>>
+\* the model itself never gets stuck before the observer has ended the run (a stuck model explores nothing beyond)
+ModelLive == pc[OBS] = "done" \/ AnyEnabled \/ Deadlines # {}
+View == <<cfg, sdl, pc, jobs, dl, lock, gate, evt, woken, jst, overdue, lpend, wt, wdl, edl, now, obs, viol, cur, cdl,
+          IF Bug = "stale_now" THEN pnow ELSE 0>>
 =============================================================================
